@@ -541,16 +541,17 @@ class Obj:
 
 
 class SymList:
-    """list of symbolic length whose elements are tuples/lists of `width` scalars of dtype `dtype`
-    (width None: plain scalars).  Components are z3 arrays Int -> elem."""
+    """list of symbolic length whose elements are tuples/lists of `width` scalars (width None: plain scalars).
+    Components are z3 arrays Int -> Int/Real; `dtype` is one of int/real or a list per component."""
 
     def __init__(self, length, width, dtype="int", comps=None, name="lst"):
         self.length = length
         self.width = width
         self.dtype = dtype
         n = 1 if width is None else width
-        self.comps = comps or [mk_array_const(fresh_name(name), 1, dtype) for _ in range(n)]
-        self.defined = None     # optional z3 Array Int->Bool: which slots hold a value (not None)
+        dts = dtype if isinstance(dtype, (list, tuple)) else [dtype] * n
+        self.comps = comps or [mk_array_const(fresh_name(name), 1, d) for d in dts]
+        self.rank = 1
 
     def get(self, i):
         i = z3int(i)
@@ -564,10 +565,13 @@ class SymList:
         if len(vs) != len(self.comps):
             raise Unsupported("element width mismatch in symbolic list")
         for k, x in enumerate(vs):
-            x = z3int(x) if self.dtype == "int" else z3real(x)
+            x = z3int(x) if self.comps[k].sort().range() == z3.IntSort() else z3real(x)
             if guard is not True:
                 x = z3.If(guard, x, z3.Select(self.comps[k], i))
             self.comps[k] = z3.Store(self.comps[k], i, x)
+
+    def __repr__(self):
+        return "<SymList len=%s width=%s>" % (self.length, self.width)
 
 
 class FuncRef:
